@@ -343,6 +343,12 @@ func (x *Executor) execInvoke(fr *Frame, st *State, reach string, call *ssa.Call
 		for i := 0; i < sig.Params().Len(); i++ {
 			names = append(names, sig.Params().At(i).Name())
 		}
+		// the interface method's own contract names the parameters
+		if n, ok := it.(*types.Named); ok && n.Obj().Pkg() != nil {
+			if con := u.eng.specs.Contracts[n.Obj().Pkg().Path()][n.Obj().Name()+"."+mname]; con != nil && len(con.Params) == len(names) {
+				names = append([]string{}, con.Params...)
+			}
+		}
 		x.atCallObligationsKey(fr, st, reach, iname+"."+mname, mname, names, append([]Val{recv}, args...), nil)
 	}
 	// contract attached to the interface method
